@@ -46,6 +46,12 @@ def main(tier, seed, replay=None):
                                 "learned circuits (XPC, LearnSPN with CLT leaves) enter through the same mapping; Python deepcopy (copy=True) checked by snapshot only"]
     from deeprob.spn.algorithms.structure import marginalize
     from deeprob.spn.algorithms.inference import log_likelihood
+    _raw_violation = rep.violation; _per_kind = {}
+    def capped(info, found):
+        k = info.get("kind"); _per_kind[k] = _per_kind.get(k, 0) + 1
+        if _per_kind[k] <= 3:                      # at most three replays per kind of failure
+            _raw_violation(info, found)
+    rep.violation = capped
     from deeprob.spn.structure.node import assign_ids
     roots = []
     for i in range(30 if tier == "quick" else 300):
